@@ -20,6 +20,7 @@ import (
 	"strings"
 	"sync"
 	"testing"
+	"time"
 
 	"github.com/daeuniverse/dae/common/assets"
 	componentdns "github.com/daeuniverse/dae/component/dns"
@@ -208,6 +209,25 @@ func c07RunR(cs *c07RCase) (res c07RResult) {
 	return res
 }
 
+// c07WaitIdle waits until no shared lookup call is registered.  lookupTypeDedup coalesces a lookup with an identical
+// one (same upstream, host, qtype) that is in flight OR has just finished but whose goroutine has not yet removed
+// the entry: a back-to-back identical lookup would then be served without a new question.  The property is about
+// where a question goes when one is sent; the harness asks its lookups one after the other on an idle router.
+func c07WaitIdle(router *Router) {
+	if router == nil {
+		return
+	}
+	for i := 0; i < 20000; i++ {
+		router.lookupMu.Lock()
+		n := len(router.lookupCalls)
+		router.lookupMu.Unlock()
+		if n == 0 {
+			return
+		}
+		time.Sleep(100 * time.Microsecond)
+	}
+}
+
 func c07RProbe1(router *Router, cs *c07RCase, p c07RProbe, mu *sync.Mutex, asked *[]int, askedQ *[][2]int) (pr c07RProbeRes) {
 	defer func() {
 		if r := recover(); r != nil {
@@ -246,7 +266,9 @@ func c07RProbe1(router *Router, cs *c07RCase, p c07RProbe, mu *sync.Mutex, asked
 	mu.Lock()
 	*asked = nil
 	mu.Unlock()
+	c07WaitIdle(router)
 	ips, lerr := rd.LookupIPAddr(context.Background(), "tcp4", p.Lookup)
+	c07WaitIdle(router)
 	mu.Lock()
 	got := append([]int{}, (*asked)...)
 	mu.Unlock()
@@ -280,6 +302,7 @@ func c07RProbe1(router *Router, cs *c07RCase, p c07RProbe, mu *sync.Mutex, asked
 	base.calls = nil
 	base.mu.Unlock()
 	ips2, lerr2 := rd.LookupIPAddr(context.Background(), netw, p.Lookup)
+	c07WaitIdle(router)
 	mu.Lock()
 	pr.Sent = append([][2]int{}, (*askedQ)...)
 	mu.Unlock()
